@@ -36,7 +36,8 @@ def clause_pool(verb, rng):
                 # a lone value goes to the default field
                 "with": "with " + rng.choice(['tag "t1"', 'tag "t2"', '"2.50"', 'tag "10"', '"true"', 'tag ".a.b"', "tag 'x y' n 3",
                                               '"0x1f"', "tag 7"]),
-                "per": "per inp " + rng.choice(['".io.p"', '".io.q"']),
+                # a `per` clause may carry an inode of its own: the `via` inode takes precedence wherever it stands
+                "per": "per " + rng.choice(['inp ".io.p"', 'inp ".io.q"', 'inode "box.one." inp ".io.p"', 'inp ".io.q" inode "box.two."']),
                 "from": "from a in .src",
                 "for": "for b in .iosrc",
                 "cum": "cum " + rng.choice(["extra 5", 'extra "v"', '"10"', 'extra "1e3"', "'no'", "extra none"]),
